@@ -454,8 +454,16 @@ impl Cx<'_> {
                 _ => format!("description: \"{w}\""),
             },
             Kind::Prop(_) => format!("description: \"{w}\""),
+            Kind::Transfer => match self.rng.below(3) {
+                0 => tags_ann(self.rng),
+                1 => format!("summary: \"{w}\""),
+                _ => format!("description: \"{w}\", {}", tags_ann(self.rng)),
+            },
             _ => return,
         };
+        if body.contains("tags:") {
+            self.features.insert("tags_annotation");
+        }
         self.features.insert("inline_annotation");
         v.push(t(&format!("`{body}`")));
     }
@@ -477,8 +485,12 @@ impl Cx<'_> {
         // Prefer naming something in scope now and then: this is what creates bindings.
         let var_p = if depth == 0 { 8 } else { 5 };
         if self.rng.chance(var_p, 10) {
-            if let Some(r) = self.try_var(k, depth) {
-                return r;
+            if let Some((mut v, closed)) = self.try_var(k, depth) {
+                if closed && matches!(k, Kind::Transfer | Kind::Content) {
+                    // an alias with its own annotation: annotations of both merge
+                    self.maybe_inline_ann(&mut v, k);
+                }
+                return (v, closed);
             }
         }
         match k {
@@ -870,6 +882,21 @@ impl Cx<'_> {
     }
 }
 
+/// A `tags: [...]` annotation over a small pool, so that merged annotations (a tagged
+/// declaration aliased with another tag list) contain duplicates.
+fn tags_ann(rng: &mut Rng) -> String {
+    const TAGS: &[&str] = &["pets", "store", "admin", "audit", "billing", "search"];
+    let n = rng.range(1, 4);
+    let mut v: Vec<&str> = Vec::new();
+    while v.len() < n {
+        let x = *rng.pick(TAGS);
+        if !v.contains(&x) {
+            v.push(x);
+        }
+    }
+    format!("tags: [{}]", v.join(", "))
+}
+
 fn decl_kind(rng: &mut Rng) -> Kind {
     match rng.below(20) {
         0..=2 => Kind::S(SK::Prim),
@@ -882,7 +909,13 @@ fn decl_kind(rng: &mut Rng) -> Kind {
         14..=15 => Kind::Content,
         16 => Kind::Ranges,
         17 => Kind::Transfer,
-        18 => Kind::Rel,
+        18 => {
+            if rng.chance(1, 2) {
+                Kind::Transfer
+            } else {
+                Kind::Rel
+            }
+        }
         _ => {
             if rng.chance(1, 2) {
                 Kind::Text
@@ -1062,6 +1095,13 @@ pub fn generate(rng: &mut Rng, cfg: &GenCfg) -> ProgramAst {
                 a.eol = true;
                 toks.push(a);
                 features.insert("line_annotation");
+            }
+            if d.kind == Kind::Transfer && tmp_rng.chance(2, 3) {
+                let mut a = t(&format!("# {}", tags_ann(&mut tmp_rng)));
+                a.eol = true;
+                toks.push(a);
+                features.insert("line_annotation");
+                features.insert("tags_annotation");
             }
             toks.push(t("let"));
             toks.push(Tok {
